@@ -31,6 +31,36 @@ Definition tsv_write_tag_row (strip_out_in_library : bool) (name : str) (a : att
         (format_tag_attributes (attribute_disallowed_df strip_out_in_library) a)
         desc.
 
+(* Schema2DF._write_entry for a unit class / unit / modifier / value class row.  [fixed] = false is the
+   code before the repair of finding C05-F4, which ignored include_props; the repaired code writes a
+   stub (name only) when include_props is False. *)
+Definition tsv_write_entry_row (fixed strip_out_in_library include_props : bool) (name : str) (a : attrs)
+           (desc : option str) : tsv_row :=
+  let props := if fixed then include_props else true in
+  let tag_id := match dict_get s_hedId a with
+                | Some (AStr v) => v
+                | Some ATrue => s_True
+                | None => []
+                end in
+  mkRow (if props then tag_id else [])
+        name
+        (if props then format_tag_attributes (attribute_disallowed_df strip_out_in_library) a else [])
+        (if props then desc else None).
+
+(* SchemaLoader._add_to_dict_base: a library entry without inLibrary gets it *)
+Definition tag_with_library (library : str) (a : attrs) : attrs :=
+  match dict_get s_inLibrary a with
+  | Some _ => a
+  | None => dict_set s_inLibrary (AStr library) a
+  end.
+
+(* HedSchemaUnitClassSection._check_if_duplicate: the entry is a placeholder for an existing class *)
+Definition unit_class_stub (a : attrs) : bool :=
+  match a with
+  | [(k, _)] => str_eqb k s_inLibrary
+  | _ => false
+  end.
+
 (* SchemaLoaderDF._create_entry without the schema object *)
 Definition tsv_read_row (r : tsv_row) : res (str * attrs * option str) :=
   let element_name := if endswith s_dash_hash (r_name r) then [ch_hash] else r_name r in
